@@ -112,6 +112,7 @@ fn lite_block_contract() {
             tx.timestamp = i as u64; tx.signature = rng.arr();
             let mut s = Slip::default(); s.public_key = keys[rng.below(4) as usize]; s.amount = 1 + rng.below(9); tx.from.push(s);
             let mut o = Slip::default(); o.public_key = keys[rng.below(4) as usize]; o.amount = 1; tx.to.push(o);
+            if rng.below(2) == 0 { let mut o2 = Slip::default(); o2.public_key = keys[rng.below(4) as usize]; o2.amount = 2; tx.to.push(o2); }   // payment + change
             if rng.below(7) == 0 { tx.transaction_type = TransactionType::GoldenTicket; }
             tx.generate_hash_for_signature();
             b.transactions.push(tx);
@@ -640,4 +641,75 @@ async fn rebroadcast_with_treasury_payout() {
     }
     assert!(expected > 0, "scenario must exercise the rebroadcast path");
     if cv.rebroadcasts.len() != expected { witness(format!("the candidate block rebroadcasts {} outputs, the block leaving the window has {} unspent outputs worth rebroadcasting", cv.rebroadcasts.len(), expected)); }
+}
+
+/// C06 for a node that joined late (it holds neither block 1 nor a full retention window, so it validates without the
+/// ledger): a block whose transaction list was altered after signing is still unacceptable
+#[tokio::test]
+#[serial_test::serial]
+async fn stripped_transaction_is_rejected_by_a_late_joiner() {
+    // producer chain: blocks 2..=5, the last one carries two payments
+    let mut a = TestManager::default();
+    a.initialize(100, 200_000_000_000_000).await;
+    let mut wires: Vec<Vec<u8>> = vec![];
+    for k in 2..=5u64 {
+        let tip = a.get_latest_block().await;
+        let mut b = a.create_block(tip.hash, tip.timestamp + 120_000, if k == 5 { 2 } else { 1 }, 1000, 0, k % 2 == 0).await;
+        b.generate().unwrap();
+        wires.push(b.serialize_for_net(BlockType::Full));
+        let r = a.add_block(b).await;
+        assert!(matches!(r, AddBlockResult::BlockAddedSuccessfully(..)), "producer block {} not added: {:?}", k, r);
+    }
+    // the late joiner starts at block 4
+    let mut j = TestManager::default();
+    let mut b4 = Block::deserialize_from_net(&wires[2]).unwrap(); b4.generate().unwrap();
+    let h4 = b4.hash;
+    let _ = j.add_block(b4).await;
+    assert_eq!(j.blockchain_lock.read().await.get_latest_block_hash(), h4, "the joiner starts its chain at block 4");
+    assert!(j.blockchain_lock.read().await.blockring.get_longest_chain_block_hash_at_block_id(1).is_none());
+    // block 5 reaches it with one payment stripped in transit; header, signature and hash are untouched
+    let mut b5 = Block::deserialize_from_net(&wires[3]).unwrap(); b5.generate().unwrap();
+    let (signed_hash, signed_root) = (b5.hash, b5.merkle_root);
+    let idx = b5.transactions.iter().position(|tx| tx.transaction_type == TransactionType::Normal).expect("a normal tx");
+    b5.transactions.remove(idx);
+    let mut received = Block::deserialize_from_net(&b5.serialize_for_net(BlockType::Full)).unwrap(); received.generate().unwrap();
+    assert_eq!(received.hash, signed_hash, "same identity");
+    assert!(received.generate_merkle_root(false, false) != signed_root);
+    let res = j.add_block(received).await;
+    let tip = j.blockchain_lock.read().await.get_latest_block_hash();
+    if tip == signed_hash {
+        witness(format!("a node that joined at block 4 (no block 1, no full window: it validates without the ledger) accepts block 5 although one of its payments was stripped after signing — the merkle root in the signed header no longer matches the transactions carried: add_block → {:?}", res));
+    }
+}
+
+/// C06 for a node that joined late: a block that is not signed by the creator it names is unacceptable — also when the
+/// node validates without the ledger
+#[tokio::test]
+#[serial_test::serial]
+async fn block_not_signed_by_its_creator_is_rejected_by_a_late_joiner() {
+    let mut a = TestManager::default();
+    a.initialize(100, 200_000_000_000_000).await;
+    let tip = a.get_latest_block().await;
+    let mut b2 = a.create_block(tip.hash, tip.timestamp + 120_000, 1, 1000, 0, true).await;
+    b2.generate().unwrap();
+    let genuine = b2.serialize_for_net(BlockType::Full);
+    // an attacker changes the timestamp and signs with a key of their own; `creator` still names the victim
+    let (_apk, ask) = crate::core::util::crypto::generate_keys();
+    let mut forged = Block::deserialize_from_net(&genuine).unwrap();
+    forged.timestamp += 1;
+    forged.generate_pre_hash();
+    forged.sign(&ask);
+    forged.creator = b2.creator;
+    let mut received = Block::deserialize_from_net(&forged.serialize_for_net(BlockType::Full)).unwrap(); received.generate().unwrap();
+    assert!(!crate::core::util::crypto::verify_signature(&received.pre_hash, &received.signature, &received.creator), "the forged block is not signed by the creator it names");
+    let h = received.hash;
+    let mut j = TestManager::default();      // a node that has nothing yet: this is the first block it sees
+    let res = j.add_block(received).await;
+    let tip = j.blockchain_lock.read().await.get_latest_block_hash();
+    if tip == h { witness(format!("a node receiving block 2 as its first block (it validates without the ledger) accepts it although its signature does not verify under the creator key it names: add_block → {:?}", res)); }
+    // control: the genuine block is accepted by such a node
+    let mut j2 = TestManager::default();
+    let mut g = Block::deserialize_from_net(&genuine).unwrap(); g.generate().unwrap(); let gh = g.hash;
+    let _ = j2.add_block(g).await;
+    assert_eq!(j2.blockchain_lock.read().await.get_latest_block_hash(), gh, "the genuine block must be accepted by a late joiner");
 }
